@@ -8,6 +8,12 @@
 // window between Server.Connect and its publication in h.sessions (F20): the request context's Value
 // method — consulted by auth.TokenInfoFromContext exactly there — closes every server session that
 // is not yet a key of h.sessions.
+// Op `postb <ref> <user>` starts a POST (a ping) of which only the HEADERS have arrived: ServeHTTP runs with a body
+// that blocks in Read; `body <n> more|end` lets a piece / the last piece of the n-th asynchronous request's body
+// arrive (n = the harness's count of asynchronous requests, the request's tag is u<n>).
+// Every entry of h.sessions is printed with the number of request handlers of that session that have been entered
+// and have not returned (`h<n>`, counted by the harness's receiving middleware); `stale:` lists the sessions that
+// have left h.sessions whose idle timer is nevertheless armed (probed with timer.Stop under timerMu).
 // Session ids are renamed s1,s2,... in the order GetSessionID minted them (the default generator is
 // wrapped, not replaced). Users: anon (no TokenInfo), ue (TokenInfo with empty UserID), u1..u3; the
 // TokenInfo is put into the request context by the real auth.RequireBearerToken middleware.
@@ -18,6 +24,7 @@ import (
 	"encoding/json"
 	"errors"
 	"fmt"
+	"io"
 	"iter"
 	"math/rand"
 	"net/http"
@@ -83,6 +90,67 @@ func (c sxHookCtx) Value(k any) any {
 }
 
 const sxRaceHeader = "X-Verif-Close-Unpublished"
+
+// sxBody is a request body that arrives in pieces: Read blocks until the harness delivers the next piece
+// (or the end). Delivering never blocks, whether or not the handler is reading.
+type sxBody struct {
+	mu     sync.Mutex
+	cond   *sync.Cond
+	buf    []byte
+	eof    bool
+	rest   []byte // what has not been delivered yet
+	closed bool
+}
+
+func newSxBody(payload string) *sxBody {
+	b := &sxBody{rest: []byte(payload)}
+	b.cond = sync.NewCond(&b.mu)
+	return b
+}
+
+func (b *sxBody) Read(p []byte) (int, error) {
+	b.mu.Lock()
+	defer b.mu.Unlock()
+	for len(b.buf) == 0 && !b.eof && !b.closed {
+		b.cond.Wait()
+	}
+	if len(b.buf) > 0 {
+		n := copy(p, b.buf)
+		b.buf = b.buf[n:]
+		return n, nil
+	}
+	if b.closed && !b.eof {
+		return 0, io.ErrClosedPipe
+	}
+	return 0, io.EOF
+}
+
+func (b *sxBody) Close() error {
+	b.mu.Lock()
+	b.closed = true
+	b.mu.Unlock()
+	b.cond.Broadcast()
+	return nil
+}
+
+// deliver lets the next piece arrive (a third of the payload), or — last — everything that is left and the end.
+func (b *sxBody) deliver(last bool) {
+	b.mu.Lock()
+	n := len(b.rest)
+	if !last {
+		n = (len(b.rest) + 2) / 3
+		if n >= len(b.rest) && n > 0 {
+			n = len(b.rest) - 1 // keep something for the last piece
+		}
+	}
+	b.buf = append(b.buf, b.rest[:n]...)
+	b.rest = b.rest[n:]
+	if last {
+		b.eof = true
+	}
+	b.mu.Unlock()
+	b.cond.Broadcast()
+}
 
 // sxStore is the fault-injecting collaborator: an EventStore (backed by the real MemoryEventStore)
 // whose methods fail while the corresponding flag is set by a `fault` op:
@@ -151,6 +219,7 @@ type sxAsync struct {
 	done   chan struct{}
 	cancel context.CancelFunc
 	seen   bool // completion already reported
+	body   *sxBody // postb: the body that arrives in pieces
 }
 
 func (a *sxAsync) finished() bool {
@@ -178,6 +247,8 @@ type sxWorld struct {
 	reqID   int
 	stateless bool
 	store   *sxStore // nil: no EventStore configured
+	inflight map[string]int          // session name -> request handlers entered and not yet returned
+	infos    map[string]*sessionInfo // every sessionInfo ever seen in h.sessions, by raw id
 }
 
 func sxUserID(u string) (tok string, present bool) {
@@ -191,7 +262,8 @@ func sxUserID(u string) (tok string, present bool) {
 }
 
 func newSxWorld(stateless bool, timeoutMS int, withStore bool) *sxWorld {
-	w := &sxWorld{names: map[string]int{}, byOrd: map[int]string{}, slots: map[int]chan struct{}{}, stateless: stateless}
+	w := &sxWorld{names: map[string]int{}, byOrd: map[int]string{}, slots: map[int]chan struct{}{}, stateless: stateless,
+		inflight: map[string]int{}, infos: map[string]*sessionInfo{}}
 	if withStore {
 		w.store = &sxStore{inner: NewMemoryEventStore(nil), fail: map[byte]bool{}}
 	}
@@ -238,7 +310,13 @@ func newSxWorld(stateless bool, timeoutMS int, withStore bool) *sxWorld {
 			}
 			w.mu.Lock()
 			w.log = append(w.log, sid+"/"+user+"/"+method)
+			w.inflight[sid]++
 			w.mu.Unlock()
+			defer func() {
+				w.mu.Lock()
+				w.inflight[sid]--
+				w.mu.Unlock()
+			}()
 			return next(ctx, method, req)
 		}
 	})
@@ -333,13 +411,19 @@ func (w *sxWorld) body(kind string, slot int) string {
 }
 
 func (w *sxWorld) request(method, ref, user, body string) (*http.Request, context.CancelFunc) {
+	return w.requestBody(method, ref, user, body, nil)
+}
+
+func (w *sxWorld) requestBody(method, ref, user, body string, pieces *sxBody) (*http.Request, context.CancelFunc) {
 	ctx, cancel := context.WithCancel(context.Background())
 	var rd *strings.Reader
 	if body != "" {
 		rd = strings.NewReader(body)
 	}
 	var req *http.Request
-	if rd != nil {
+	if pieces != nil {
+		req, _ = http.NewRequestWithContext(ctx, method, "http://example.test/mcp", pieces) // ContentLength unknown (chunked)
+	} else if rd != nil {
 		req, _ = http.NewRequestWithContext(ctx, method, "http://example.test/mcp", rd)
 	} else {
 		req, _ = http.NewRequestWithContext(ctx, method, "http://example.test/mcp", nil)
@@ -410,8 +494,11 @@ func (w *sxWorld) snapshot() string {
 		s string
 	}
 	var ents []ent
+	inMap := map[string]bool{}
 	w.h.mu.Lock()
 	for id, info := range w.h.sessions {
+		inMap[id] = true
+		w.infos[id] = info
 		info.timerMu.Lock()
 		refs, timer := info.refs, info.timer != nil
 		info.timerMu.Unlock()
@@ -433,9 +520,37 @@ func (w *sxWorld) snapshot() string {
 		if info.transport.SessionID != id {
 			nm += "!key"
 		}
-		ents = append(ents, ent{k, fmt.Sprintf("%s/%s/r%d/t%d/c%d", nm, owner, refs, b2i(timer), b2i(closing))})
+		w.mu.Lock()
+		busy := w.inflight[strings.TrimSuffix(nm, "!key")]
+		w.mu.Unlock()
+		ents = append(ents, ent{k, fmt.Sprintf("%s/%s/r%d/t%d/c%d/h%d", nm, owner, refs, b2i(timer), b2i(closing), busy)})
 	}
 	w.h.mu.Unlock()
+	// sessions that have left the table: is their idle timer armed? (Stop reports it — and disarms it, which
+	// changes nothing observable: the callback would only Close a session that is closed already)
+	var staleEnts []ent
+	for id, info := range w.infos {
+		if inMap[id] {
+			continue
+		}
+		info.timerMu.Lock()
+		armed := info.timer != nil && info.timer.Stop()
+		info.timerMu.Unlock()
+		if armed {
+			k := 1 << 30
+			w.mu.Lock()
+			if n, ok := w.names[id]; ok {
+				k = n
+			}
+			w.mu.Unlock()
+			staleEnts = append(staleEnts, ent{k, w.name(id)})
+		}
+	}
+	sort.Slice(staleEnts, func(i, j int) bool { return staleEnts[i].k < staleEnts[j].k })
+	var stale []string
+	for _, e := range staleEnts {
+		stale = append(stale, e.s)
+	}
 	sort.Slice(ents, func(i, j int) bool { return ents[i].k < ents[j].k || (ents[i].k == ents[j].k && ents[i].s < ents[j].s) })
 	var m []string
 	for _, e := range ents {
@@ -462,7 +577,7 @@ func (w *sxWorld) snapshot() string {
 		}
 		return strings.Join(l, ";")
 	}
-	return "done:" + j(done) + " map:" + j(m) + " srv:" + j(srv) + " log:" + j(lg)
+	return "done:" + j(done) + " map:" + j(m) + " srv:" + j(srv) + " log:" + j(lg) + " stale:" + j(stale)
 }
 
 func b2i(b bool) int {
@@ -522,6 +637,39 @@ func (w *sxWorld) apply(toks []string) (obs string) {
 			w.log = nil
 			w.mu.Unlock()
 		}
+	case "postb":
+		// the headers of a POST (a ping) arrive; the body follows in pieces (`body <n> more|end`)
+		if w.stateless || len(toks) != 3 || toks[1] == "-" {
+			return "bad-op"
+		}
+		w.nasync++
+		b := newSxBody(w.body("ping", 0))
+		req, cancel := w.requestBody(http.MethodPost, toks[1], toks[2], "", b)
+		a := w.start(fmt.Sprintf("u%d", w.nasync), req, cancel)
+		a.body = b
+		synctest.Wait()
+		if a.finished() {
+			a.seen = true
+			head = w.respOf(a)
+		} else {
+			head = "pending -"
+		}
+		w.pend = append(w.pend, a)
+	case "body":
+		if w.stateless || len(toks) != 3 || (toks[2] != "more" && toks[2] != "end") {
+			return "bad-op"
+		}
+		head = "noop -"
+		for _, a := range w.pend {
+			if a.tag == "u"+toks[1] && a.body != nil && !a.finished() {
+				a.body.deliver(toks[2] == "end")
+				if toks[2] == "end" {
+					a.body = nil
+				}
+				head = "ok -"
+			}
+		}
+		synctest.Wait()
 	case "release":
 		k, _ := strconv.Atoi(toks[1])
 		w.mu.Lock()
@@ -630,7 +778,9 @@ func (w *sxWorld) apply(toks []string) (obs string) {
 	return head + " " + w.snapshot()
 }
 
-// finish releases everything so that the bubble can end, and reports what was still alive.
+// finish releases everything so that the bubble can end, and reports what was still alive: requests that do not
+// return (among them the final ServerSession.Close calls), sessions left in the handler's table / the server, idle
+// timers that are still armed although every session has been closed.
 func (w *sxWorld) finish() string {
 	w.mu.Lock()
 	for k, ch := range w.slots {
@@ -640,16 +790,34 @@ func (w *sxWorld) finish() string {
 	w.mu.Unlock()
 	synctest.Wait()
 	for _, a := range w.pend {
+		if a.body != nil {
+			a.body.Close() // the client gives the upload up
+		}
 		if a.cancel != nil {
 			a.cancel()
 		}
 	}
 	synctest.Wait()
+	// the server closes every session that is left (in goroutines: a Close that never returns must not take the
+	// harness with it)
+	var closers []chan struct{}
 	for ss := range w.server.Sessions() {
-		ss.Close()
+		ch := make(chan struct{})
+		closers = append(closers, ch)
+		go func() {
+			defer close(ch)
+			ss.Close()
+		}()
 	}
 	synctest.Wait()
 	stuck := 0
+	for _, ch := range closers {
+		select {
+		case <-ch:
+		default:
+			stuck++
+		}
+	}
 	for _, a := range w.pend {
 		if !a.finished() {
 			stuck++
@@ -657,12 +825,40 @@ func (w *sxWorld) finish() string {
 	}
 	w.h.mu.Lock()
 	left := len(w.h.sessions)
+	for id, info := range w.h.sessions {
+		w.infos[id] = info
+	}
 	w.h.mu.Unlock()
 	n := 0
-	for range w.server.Sessions() {
+	var hung []*ServerSession
+	for ss := range w.server.Sessions() {
 		n++
+		hung = append(hung, ss)
 	}
-	return fmt.Sprintf("end stuck=%d map=%d srv=%d", stuck, left, n)
+	timers := 0
+	for _, info := range w.infos {
+		info.timerMu.Lock()
+		if info.timer != nil && info.timer.Stop() {
+			timers++
+		}
+		info.timerMu.Unlock()
+	}
+	// whatever is still hanging is released by force (the transport is marked done), so that the bubble can exit and
+	// the verdict is a record instead of a deadlocked test process
+	for _, ss := range hung {
+		if c, ok := ss.mcpConn.(*streamableServerConn); ok {
+			c.mu.Lock()
+			if !c.isDone {
+				c.isDone = true
+				close(c.done)
+			}
+			c.mu.Unlock()
+		}
+	}
+	if len(hung) > 0 {
+		synctest.Wait()
+	}
+	return fmt.Sprintf("end stuck=%d map=%d srv=%d timers=%d", stuck, left, n, timers)
 }
 
 // ---------------------------------------------------------------------------------------------
@@ -687,6 +883,8 @@ type sxGen struct {
 	slow      []int // slots believed pending
 	nslow     int
 	unk       int
+	nasync    int   // mirrors the harness's count of asynchronous requests (uploads are named after it)
+	upl       []int // uploads (postb) believed to be in progress
 }
 
 var sxUsers = []string{"u1", "u2", "u3", "anon", "ue"}
@@ -844,6 +1042,28 @@ func (g *sxGen) next() (op string, tags []string) {
 		kind := []string{"init", "init", "init", "ping", "badinit", "slow"}[g.rng.Intn(6)]
 		return fmt.Sprintf("postx %s %s", sxUsers[g.rng.Intn(len(sxUsers))], kind), []string{"postx-" + kind, "id-noid"}
 	}
+	if !g.stateless {
+		// POSTs whose body arrives in pieces: begin one (mostly the owner's, on a live session), let a piece / the end
+		// of one in progress arrive
+		if len(g.upl) > 0 && g.rng.Intn(100) < 22 {
+			k := g.upl[g.rng.Intn(len(g.upl))]
+			if g.rng.Intn(3) == 0 {
+				return fmt.Sprintf("body %d more", k), []string{"body-more"}
+			}
+			return fmt.Sprintf("body %d end", k), []string{"body-end"}
+		}
+		if g.rng.Intn(100) < 7 {
+			ref, user, cls := g.target(false)
+			if cls == "foreign" && g.rng.Intn(2) == 0 {
+				for _, x := range g.sess {
+					if fmt.Sprintf("s%d", x.ord) == ref && x.owner != "-" {
+						user, cls = x.owner, "own"
+					}
+				}
+			}
+			return fmt.Sprintf("postb %s %s", ref, user), []string{"postb", "id-" + cls}
+		}
+	}
 	r := g.rng.Intn(100)
 	switch {
 	case r < 40:
@@ -894,6 +1114,25 @@ func (g *sxGen) learn(op []string, obs string) {
 	}
 	if (op[0] == "post" && op[3] == "slow") || (op[0] == "postx" && op[2] == "slow") {
 		g.nslow++
+	} else if op[0] == "post" || op[0] == "postx" || op[0] == "get" || op[0] == "delete" || op[0] == "other" ||
+		(op[0] == "close" && !strings.HasPrefix(obs, "noop")) {
+		g.nasync++
+	}
+	if op[0] == "postb" && obs != "bad-op" {
+		g.nasync++
+		if strings.HasPrefix(obs, "pending") {
+			g.upl = append(g.upl, g.nasync)
+		}
+	}
+	if op[0] == "body" && len(op) == 3 && op[2] == "end" {
+		k, _ := strconv.Atoi(op[1])
+		keep := g.upl[:0]
+		for _, x := range g.upl {
+			if x != k {
+				keep = append(keep, x)
+			}
+		}
+		g.upl = keep
 	}
 	i := strings.Index(obs, "map:")
 	j := strings.Index(obs, " srv:")
@@ -973,7 +1212,65 @@ func sxScenario(rng *rand.Rand, g *sxGen) (ops []string, tag string) {
 		}
 		return ops, "scn-stateless-ids"
 	}
-	switch rng.Intn(6) {
+	switch rng.Intn(9) {
+	case 6:
+		// a POST whose body arrives in pieces over a period that straddles the idle deadline: the POST is in progress
+		// from the arrival of its headers, the timeout must not fire before it has ended (C11)
+		o := u()
+		a := []int{1, 40, 60, 99}[rng.Intn(4)]
+		T := g.timeout
+		if T == 0 {
+			T = 100
+		}
+		ops = append(ops, fmt.Sprintf("post - %s init", o), fmt.Sprintf("tick %d", a), fmt.Sprintf("postb s1 %s", o)) // u2
+		ops = append(ops, fmt.Sprintf("tick %d", T-a+rng.Intn(3)-1))
+		if rng.Intn(2) == 0 {
+			ops = append(ops, "body 2 more", fmt.Sprintf("tick %d", []int{1, 50, 100, 101}[rng.Intn(4)]))
+		}
+		if rng.Intn(3) == 0 {
+			ops = append(ops, fmt.Sprintf("get s1 %s", o))
+		}
+		ops = append(ops, "body 2 end", fmt.Sprintf("tick %d", []int{99, 100}[rng.Intn(2)]), fmt.Sprintf("post s1 %s ping", o), "tick 1", fmt.Sprintf("post s1 %s ping", o))
+		return ops, "scn-upload-vs-timeout"
+	case 7:
+		// a POST that outlives the closing of its session — its body is still on its way when the session is deleted /
+		// closed by the server (the event store possibly failing) — ends afterwards: nothing of the closed session may be
+		// re-armed (C05), the id stays dead (C11)
+		o := u()
+		ops = append(ops, fmt.Sprintf("post - %s init", o), fmt.Sprintf("postb s1 %s", o)) // u2
+		if rng.Intn(3) == 0 {
+			ops = append(ops, "body 2 more")
+		}
+		ops = append(ops, fl()...)
+		switch rng.Intn(3) {
+		case 0:
+			ops = append(ops, fmt.Sprintf("delete s1 %s", o))
+		case 1:
+			ops = append(ops, "close s1")
+		default:
+			ops = append(ops, fmt.Sprintf("delete s1 %s", o), "close s1")
+		}
+		ops = append(ops, fmt.Sprintf("tick %d", []int{1, 50, 100}[rng.Intn(3)]), "body 2 end", fmt.Sprintf("tick %d", []int{99, 100, 101}[rng.Intn(3)]),
+			fmt.Sprintf("post s1 %s ping", o), fmt.Sprintf("get s1 %s", o))
+		return ops, "scn-upload-outlives-close"
+	case 8:
+		// the same with a handler still running when the close begins: DELETE waits for it, the upload ends on the
+		// dying session, the handler is released, the close completes
+		o := u()
+		ops = append(ops, fmt.Sprintf("post - %s init", o), fmt.Sprintf("post s1 %s slow", o), fmt.Sprintf("postb s1 %s", o)) // p1, u2
+		ops = append(ops, fl()...)
+		if rng.Intn(2) == 0 {
+			ops = append(ops, fmt.Sprintf("delete s1 %s", o))
+		} else {
+			ops = append(ops, "close s1")
+		}
+		if rng.Intn(2) == 0 {
+			ops = append(ops, "body 2 end", "release 1")
+		} else {
+			ops = append(ops, "release 1", "body 2 end")
+		}
+		ops = append(ops, fmt.Sprintf("tick %d", 100), fmt.Sprintf("postb s1 %s", o), "tick 1")
+		return ops, "scn-upload-on-dying-session"
 	case 0:
 		// POSTs of several users in progress at once on one unbound session, then DELETE, releases in any order
 		ops = append(ops, "post - anon init")
@@ -1054,7 +1351,7 @@ func sxScenario(rng *rand.Rand, g *sxGen) (ops []string, tag string) {
 // (a second user and an unbound identity take part), started by `post - u1 init`.
 func sxExhaustive(depth int, f func(ops []string)) {
 	alpha := []string{"post s1 u1 slow", "post s1 u2 ping", "post s1 u1 ping", "delete s1 u1", "delete s1 u2", "get s1 u1",
-		"tick 100", "tick 99", "release 1", "abandon 1", "close s1"}
+		"tick 100", "tick 99", "release 1", "abandon 1", "close s1", "postb s1 u1", "body 2 end", "body 3 end"}
 	var rec func(prefix []string)
 	rec = func(prefix []string) {
 		if len(prefix) == depth {
